@@ -24,7 +24,8 @@ def prop(pid, rules, cfgs_quick, explanation, technique, not_decided, cfgs_thoro
 
 prop("C02",
      [("S1", S.S1, K01, {}), ("S2", S.S2, K01, {}), ("S3", S.S3, K01, {}), ("S4", S.S4, K01, {}), ("S5", S.S5, K01, {}),
-      ("L2", lambda ctx: __import__("rules_run").L2(ctx), K01, {})],
+      ("L2", lambda ctx: __import__("rules_run").L2(ctx), K01, {}),
+      ("B1", S.opts_frame, K01, {"fields": ("StreamOrder",)})],
      K01,
      "Decides the scheduler premises S1-S5 (and L2: each fold step returns its state only after the user future's Ready arm) on the MIR of every streaming path: counts/structure pairing chain "
      "(in-degree with forward structure, out-degree with reversed structure, build() orientation, StreamOpts::rev/default), "
@@ -55,7 +56,7 @@ prop("C04",
 
 prop("C05",
      [("T3", T.T3, K01, {"want_stream": True}), ("U1", T.U1, K01, {}), ("S2", S.S2, K01, {}), ("S3", S.S3, K01, {}),
-      ("S5", S.S5, K01, {}), ("S7", S.S7, K01, {}), ("S4", S.S4, K01, {}),
+      ("S5", S.S5, K01, {}), ("S7", S.S7, K01, {}), ("S4", S.S4, K01, {"liveness": True}),
       ("S6", S.S6, K01, {"roles_filter": ("READY", "DONE")})],
      K01,
      "Decides T3 on the stream poll closure (no return that may be Pending after a Ready(Some) from the done receiver without re-polling it), "
@@ -98,7 +99,7 @@ prop("C06",
 
 prop("C11",
      [("R3", B.R3, K04, {"parts": ("graph-field",)}), ("W1", B.W1, K04, {}), ("B3", B.B3, K04, {}), ("R2", B.R2, K04, {"strict_order": True}),
-      ("R1", B.R1, K04, {}), ("K", B.C13_rules, K04, {})],
+      ("R1", B.R1, K04, {}), ("K", B.C13_rules, K04, {}), ("P1", B.P1, K04, {})],
      K04,
      "Decides B1 (phase order: ranks, then augmentation, then counts and structure copies, all on the same graph which becomes FnGraph.graph), "
      "B2 (no add_node/remove/clear/retain reaches the user's Dag from build()), B3 (the only added edge is Edge::Data, control dependent on "
@@ -157,7 +158,8 @@ prop("C07",
      "that already started futures complete (contract of for_each_concurrent, trusted)")
 
 prop("C08",
-     [("I", R.I_rules, ("K1",), {}), ("S5", S.S5, ("K1",), {}), ("T1", T.T1, ("K1",), {"kinds": ("INTERRUPTED",)}), ("T4", T.T4, ("K1",), {})],
+     [("I", R.I_rules, ("K1",), {}), ("S5", S.S5, ("K1",), {}), ("T1", T.T1, ("K1",), {"kinds": ("INTERRUPTED",)}), ("T4", T.T4, ("K1",), {}),
+      ("B1", S.opts_frame, ("K1",), {"fields": ("InterruptibilityState", "bool")})],
      ("K1",),
      "Decides the wiring only: I1 (opts.interruptibility_state and interrupted_next_item_include flow unchanged from each public parameter - or from "
      "StreamOpts::default() - to the ready-stream wrapper; stream_with_interruptible passes the state to interruptible_with, stream/stream_with do not wrap), "
@@ -223,12 +225,14 @@ prop("C15",
 PROPS["C15"]["witnesses"] = [("c15", [], ""), ("c15", ["interruptible"], "")]
 
 prop("C20",
-     [("N", ST.N_rules, K01, {})],
+     [("N", ST.N_rules, K01, {}), ("A1", T.A1, K01, {})],
      K01,
      "Whole-property static argument (non-interference of simultaneous runs): N1-N5 as for C15 (nothing mutable is reachable through &FnGraph; no global state; all per-run state "
      "allocated per call; scheduling fields never written), plus FnGraph<F>: Sync for F: Send + Sync (shared runs from several threads), two shared-reference runs and a stream may be "
      "alive at once for every F (must-compile), two simultaneous `_mut` runs do not type-check (E0499) and a `_mut` run excludes shared runs (E0502), with a compiling sequential twin. "
-     "Each run therefore satisfies C01-C10 exactly as if alone: its behaviour depends only on immutable graph fields and its own allocations.",
+     "Each run therefore satisfies C01-C10 exactly as if alone: its behaviour depends only on immutable graph fields and its own allocations. "
+     "A1: every future created on a streaming path is awaited to completion, never polled once and discarded (now_or_never/timeout/select), so the only ambient "
+     "state two runs in one task share - tokio's cooperative budget - can delay a run but not change what it does.",
      "type-level deep-immutability walk + effect inventory over all MIR bodies + borrow-checker / auto-trait witnesses",
      "tokio's cooperative budget thread-local only adds self-woken Pendings; user F interior mutability is the user's")
 PROPS["C20"]["witnesses"] = [("c15", [], ""), ("c15", ["interruptible"], "")]
